@@ -26,9 +26,20 @@
 #include <stdlib.h>
 #include <stdio.h>
 
-enum { CL_EVENTFD, CL_PIPE, CL_QUEUE, CL_MANY_WRITES, CL_READ_EMPTY, CL_QUEUE_FULL, CL_QUEUE_EMPTIED, CL_LOOP, CL_INIT_READABLE };
+#include <sys/eventfd.h>
+#include <errno.h>
+
+/* eventfd_write / eventfd_read of the C library are replaced (symbols of the executable come first) so that a call can be
+ * interrupted: the g_eintr-th call from now on fails once with EINTR, as a signal arriving during the system call makes it.
+ * ueventfd.h documents nothing about it, but a notification that is silently dropped is a lost wake-up. */
+static int g_eintr, g_eintr_hits;
+static bool eintr_now(void) { if (g_eintr && --g_eintr == 0) { g_eintr_hits++; errno = EINTR; return true; } return false; }
+int eventfd_write(int fd, eventfd_t value) { if (eintr_now()) return -1; return write(fd, &value, sizeof(value)) == sizeof(value) ? 0 : -1; }
+int eventfd_read(int fd, eventfd_t *value) { if (eintr_now()) return -1; return read(fd, value, sizeof(*value)) == sizeof(*value) ? 0 : -1; }
+
+enum { CL_EVENTFD, CL_PIPE, CL_QUEUE, CL_MANY_WRITES, CL_READ_EMPTY, CL_QUEUE_FULL, CL_QUEUE_EMPTIED, CL_LOOP, CL_INIT_READABLE, CL_EINTR };
 static const char *const class_names[] = { "eventfd_mode", "pipe_mode", "uqueue", "several_writes_before_a_read", "read_on_non_readable",
-    "queue_filled_to_capacity", "queue_emptied_by_pops", "watcher_iteration", "initialised_readable", NULL };
+    "queue_filled_to_capacity", "queue_emptied_by_pops", "watcher_iteration", "initialised_readable", "eventfd_call_interrupted", NULL };
 
 struct ctx {
     struct tape t;
@@ -103,8 +114,13 @@ static void run_eventfd(struct ctx *c, bool pipe_mode)
             R("  read\n");
             model = false; writes_since_read = 0;
             break;
-        default: break;
+        default:
+            /* the next (or second next) eventfd system call is interrupted once */
+            g_eintr = 1 + (b >> 2) % 2;
+            R("  (EINTR armed for eventfd call %d from now)\n", g_eintr);
+            break;
         }
+        if (g_eintr_hits) { CLS(CL_EINTR); }
         bool p = polled(&e);
         iterate(c);
         R("    poll: %sreadable; loop iteration: watcher fired %d time(s)\n", p ? "" : "not ", c->fired[0]);
@@ -113,6 +129,7 @@ static void run_eventfd(struct ctx *c, bool pipe_mode)
         else if (model && c->fired[0] == 0) FAIL("eventfd/lost-wakeup", "the descriptor is readable but the watcher allocated by ueventfd_upump_alloc did not fire in a loop iteration");
         else if (!model && c->fired[0] != 0) FAIL("eventfd/spurious", "the watcher fired although the descriptor was read and nothing was written since");
     }
+    g_eintr = 0;
     upump_stop(w); upump_free(w);
     ueventfd_clean(&e);
 }
@@ -171,6 +188,7 @@ static int run(const uint8_t *tape, size_t len, struct vp_report *rep, unsigned 
     static struct ctx ctx;
     struct ctx *c = &ctx;
     memset(c, 0, sizeof *c);
+    g_eintr = 0; g_eintr_hits = 0;
     tp_init(&c->t, tape, len);
     c->rep = rep; c->render = flags & VP_RENDER; c->hash = VP_HASH_INIT;
     c->loop = ev_loop_new(EVFLAG_NOENV);
